@@ -8,14 +8,14 @@
 EXTENDS FileOpsDefs, TLC, Json
 
 States == { [a |-> fs.a, b |-> fs.b, sub |-> fs.sub, c |-> fs.c, n |-> 0, ld |-> 0] : fs \in { f \in FSStates : WellFormed(f) } }
-OpenItems == { [p |-> p, idx |-> 0, mode |-> m, mk |-> k] : p \in OpenPaths, m \in Modes, k \in BOOLEAN }
+OpenItems == { [p |-> p, idx |-> 0, mode |-> m, mk |-> k, perm |-> q] : p \in OpenPaths, m \in Modes, k \in BOOLEAN, q \in Perms }
 (* sustained large batches on one long-lived environment: `files` numbered files, `rounds`    *)
 (* consecutive batches of `batch` items over them (plus a few absent indices), every round    *)
 (* judged like any other Open                                                                *)
 Sustained == { [files |-> 250, batch |-> 250, rounds |-> 100], [files |-> 253, batch |-> 253, rounds |-> 100],
                [files |-> 250, batch |-> 200, rounds |-> 300], [files |-> 253, batch |-> 253, rounds |-> 300],
                [files |-> 120, batch |-> 100, rounds |-> 300] }
-NumberedItems == { [p |-> "n", idx |-> i, mode |-> m, mk |-> FALSE] : i \in 1..273, m \in {"r", "rw"} }
+NumberedItems == { [p |-> "n", idx |-> i, mode |-> m, mk |-> FALSE, perm |-> 420] : i \in 1..273, m \in {"r", "rw"} }
 LinkItems == { [link |-> l, to |-> t, idx |-> 0, len |-> 0, what |-> ""] : l \in LinkPaths, t \in LinkTargets }
 Shapes == { <<"open">>, <<"open", "open">>, <<"symlink", "open">>, <<"open", "delete", "open">>,
             <<"delete", "symlink", "open">>, <<"open", "symlink", "delete">>, <<"symlink", "symlink">>,
@@ -27,11 +27,12 @@ ASSUME ndJsonSerialize("openitems.ndjson", SetToSeq(OpenItems))
 ASSUME ndJsonSerialize("linkitems.ndjson", SetToSeq(LinkItems))
 ASSUME ndJsonSerialize("deletepaths.ndjson", SetToSeq({ [p |-> p] : p \in DeletePaths }))
 ASSUME ndJsonSerialize("shapes.ndjson", SetToSeq({ [shape |-> s] : s \in Shapes }))
+ASSUME ndJsonSerialize("modes.ndjson", SetToSeq({ [mode |-> m, acc |-> Acc(m), flags |-> SetToSeq(Flags(m))] : m \in Modes }))
 ASSUME ndJsonSerialize("long.ndjson", SetToSeq({ [n |-> n] : n \in LongBatches }))
 (* long legal paths: failing (and a few succeeding) items whose error texts add up to a budget   *)
 (* BELOW the 32 KiB frame: the reply must still be answered item by item                        *)
-LongOpenItems == { [p |-> "L", idx |-> i, len |-> n, what |-> w, mode |-> m, mk |-> FALSE] :
-                     i \in 1..40, n \in 1..3, w \in {"dir", "miss"}, m \in Modes }
+LongOpenItems == { [p |-> "L", idx |-> i, len |-> n, what |-> w, mode |-> m, mk |-> FALSE, perm |-> 420] :
+                     i \in 1..40, n \in 1..3, w \in {"dir", "miss"}, m \in {"r", "w", "rw"} }
 LongLinkItems == { [link |-> "L", to |-> "target", idx |-> i, len |-> n, what |-> w] :
                      i \in 1..40, n \in 1..3, w \in {"dir", "miss"} }
 ErrBudgetsKiB == { 8, 16, 24, 30 }
